@@ -515,7 +515,7 @@ func executorErrorIdentity(c *an.Ctx, rule string) {
 		nRun++
 		for _, src := range an.Sources(o.Root(o.RetVals[idx])) {
 			src = o.Root(src)
-			if an.IsNilConst(src) || src == ssa.Value(runCall) {
+			if an.IsNilConst(src) || src == ssa.Value(runCall) || carriedBy(p, src, runCall) {
 				continue
 			}
 			okAll = false
@@ -687,13 +687,58 @@ func collectThenChain(c *an.Ctx, ct *ssa.Function, site *ssa.Call, inner *an.Loo
 			}
 		}
 		if !found {
-			return "a successful return does not hand the collected jobs to a linking helper", false
+			chainFn = nil
+			break
 		}
 	}
-	if chainFn == nil {
-		return "no linking helper", false
+	var X ssa.Value
+	if chainFn != nil {
+		X = chainFn.Params[chainArg]
+	} else {
+		// (2') … or CompileTask links the collected slice itself, after the loops
+		isCollected := func(v ssa.Value) bool {
+			seen := map[ssa.Value]bool{}
+			var walk func(v ssa.Value) bool
+			walk = func(v ssa.Value) bool {
+				if seen[v] {
+					return false
+				}
+				seen[v] = true
+				for _, sv := range append(an.Sources(v), an.ResolveAll(v)...) {
+					if sv == ssa.Value(acc) || sv == appended {
+						return true
+					}
+					if ph, ok := sv.(*ssa.Phi); ok {
+						for _, ed := range ph.Edges {
+							if walk(ed) {
+								return true
+							}
+						}
+					}
+				}
+				return false
+			}
+			return walk(v)
+		}
+		an.EachInstr(ct, func(in ssa.Instruction) {
+			st, ok := in.(*ssa.Store)
+			if !ok || inner.Blocks[st.Block()] {
+				return
+			}
+			fa, ok := st.Addr.(*ssa.FieldAddr)
+			if !ok || an.AccessPath(fa).LastField() != "Next" {
+				return
+			}
+			if u, ok := fa.X.(*ssa.UnOp); ok && u.Op == token.MUL {
+				if ia, ok := u.X.(*ssa.IndexAddr); ok && isCollected(ia.X) {
+					chainFn, X = ct, ia.X
+				}
+			}
+		})
+		if chainFn == nil {
+			return "a successful return does not hand the collected jobs to a linking helper, and CompileTask does not link them itself", false
+		}
 	}
-	X := chainFn.Params[chainArg]
 	// (3) the helper links neighbours: X[i-1].Next = X[i] (or X[i].Next = X[i+1]) for every i
 	var link *ssa.Store
 	an.EachInstr(chainFn, func(in ssa.Instruction) {
@@ -803,6 +848,9 @@ func collectThenChain(c *an.Ctx, ct *ssa.Function, site *ssa.Call, inner *an.Loo
 	// (4) the head is the first element
 	headOK := false
 	for _, ret := range an.Returns(chainFn) {
+		if chainFn == ct && !an.IsNilConst(an.RetVal(ret, 1)) {
+			continue
+		}
 		for _, s := range an.Sources(an.RetVal(ret, 0)) {
 			if idx, ok := elemOf(s); ok {
 				if k, isK := an.ConstInt(idx); isK && k == 0 {
